@@ -63,6 +63,20 @@ Proof.
 Qed.
 Print Assumptions T15a_roundtrip.
 
+(* lossless: two inputs that one algorithm compresses (at any two levels) to the same bytes
+   are the same input - no information is dropped by the wrappers around sound libraries *)
+Theorem T15a_lossless : forall (L : libs), libs_sound L -> forall alg level level' x y s,
+  len x < 2 ^ 64 -> len y < 2 ^ 64 ->
+  (alg = COMP_ZSTD -> zstd_bound (len x) <= INT_MAX) -> (alg = COMP_ZSTD -> zstd_bound (len y) <= INT_MAX) ->
+  wrapper_compress_level L alg level x = COk s -> wrapper_compress_level L alg level' y = COk s -> x = y.
+Proof.
+  intros L Hs alg level level' x y s Hx Hy Hzx Hzy Cx Cy.
+  destruct (T15a_roundtrip L Hs alg level x s Hx Hzx) as [Rx _].
+  destruct (T15a_roundtrip L Hs alg level' y s Hy Hzy) as [Ry _].
+  specialize (Rx Cx). specialize (Ry Cy). congruence.
+Qed.
+Print Assumptions T15a_lossless.
+
 Theorem T15a_compress_succeeds : forall (L : libs), libs_complete L -> forall alg level x,
   In alg [COMP_SNAPPY; COMP_ZLIB; COMP_LZ4; COMP_LZ4HC; COMP_ZSTD] -> len x <= LZ4_MAX_INPUT_SIZE ->
   exists s, wrapper_compress_level L alg level x = COk s.
